@@ -501,6 +501,8 @@ class ExecCore:
             if name in cur.deleted:
                 break
             if name in cur.attrs:
+                if not cur.fresh:
+                    self.reads_global.add((cur.path, name))     # a read of pre-state, also when the value is cached
                 return cur.attrs[name]
             root = cur
             cur = self.st.heap.get(cur.parent) if cur.parent is not None else None
